@@ -8,8 +8,8 @@ from . import base, shipped_props
 ID = 'C09'
 LEVEL = 'fault_enumeration'
 PLAN = {
-    'quick': [('gates', 400), ('limits', 240)],
-    'thorough': [('gates', 16000), ('limits', 9000)],
+    'quick': [('gates', 400), ('limits', 240), ('synth_gates', 8000)],
+    'thorough': [('gates', 16000), ('limits', 9000), ('synth_gates', 300000)],
 }
 DEADLINE = {'quick': 220, 'thorough': 3300}
 PROBES = ['gate-read-and-affirmative', 'gate-led-to-abort', 'gate-led-to-failure', 'limit-foreign-tax', 'limit-schedule-b-rows',
@@ -27,7 +27,9 @@ RULE = ('fault = the simulated taxpayer declares a situation habutax cannot hand
         're-run under a fresh attempt order and file/prompt split (enumeration over the gates read per scenario); limit faults push '
         'foreign tax above the Form 1116 threshold, payers above the 14 Schedule B rows, educator expenses above the cap, HSA '
         'contributions above any limit. If the gate/limit was consulted in the faulted run, the run must not report success (failure or '
-        'abort are both fine). Non-trivial: faulted runs of a baseline that solved, in which the gate was read; distinct = distinct '
+        'abort are both fine). A third engine runs generated form programs (several forms, copies of forms, lines asked for by name) '
+        'whose lines signal an unimplemented situation behind conditions on inputs: whenever the reference model reaches such a '
+        'signal on the final inputs, success must not be reported. Non-trivial: faulted runs of a baseline that solved, in which the gate was read; distinct = distinct '
         '(year, gate or limit) pairs among those')
 F = simrun.F
 _cat = {}
@@ -136,7 +138,12 @@ def eval_gates(case, acc=None):
     year = case['persona']['year']
     cat = gate_catalogue(year)['gates']
     fs = []
-    basel = shipped_props.execute(case)
+    try:
+        basel = shipped_props.execute(case)
+    except (core.RunTimeout, core.BudgetExceeded):
+        if acc is not None:
+            acc.count('outcome:baseline-unfinished')
+        return fs
     read = gates_read(year, basel)
     todo = case.get('gates')
     if todo is None:
@@ -163,28 +170,52 @@ def eval_gates(case, acc=None):
         sched = (rng.randrange(1 << 32), rng.pick([0, 1, 3]))
         names = [n for n in basel.supplied if rng.chance(0.5)] if rng.chance(0.7) else list(case['file'])
         how = rng.pick(['fresh', 'fresh', 'reuse', 'resolve', 'cli'])
-        if how == 'cli':
-            # the same declaration through `habutax solve` (habutax.main(), real prompt loop, --form per requested form)
-            import copy
-            c2 = copy.deepcopy(case)
-            c2['persona']['over'][q] = text
-            c2.update(file=list(names), sched=list(sched), prompt=True, refuse_at=None)
-            run = shipped_props.execute_cli(c2)
-        elif how == 'fresh':
-            run = shipped.execute(case['persona'], file_names=names, sched=sched, prompt=True, layout=case.get('layout'),
-                                  overrides={q: text})
-        elif how == 'reuse':
-            # the declaration arrives on the SAME InputStore after a first solve (store reused through its mapping API)
-            first = shipped.execute(case['persona'], file_names=list(basel.supplied), sched=sched, prompt=True)
-            try:
-                first.store[q] = text
-            except Exception:
-                continue
-            run = shipped.execute(case['persona'], sched=sched, prompt=True, store=first.store, overrides={q: text})
-        else:
-            run = resolve_history(case['persona'], basel, q, text, sched, rng)
-            if run is None:
-                continue
+        # the statement or form copy the gate sits on may be named in the request as well (with its sibling copies)
+        req = list(case['persona']['forms'])
+        finst = q.split('.')[0]
+        if ':' in finst and rng.chance(0.4):
+            base_, inst_ = finst.split(':')
+            sibs = [finst]
+            if inst_.isdigit():
+                try:
+                    n_ = int(float(shipped.Persona(case['persona']).text(f'1040.number_{base_}')))
+                    sibs = [f'{base_}:{k_}' for k_ in range(min(n_, 4))]
+                except (ValueError, core.HarnessError):
+                    pass
+            req += [f_ for f_ in sibs if f_ not in req]
+            if rng.chance(0.6):
+                names = list(basel.supplied)        # a complete file: nothing is asked
+            if acc is not None:
+                acc.count('fault:gate-form-copy-named-in-request')
+        try:
+            if how == 'cli':
+                # the same declaration through `habutax solve` (habutax.main(), real prompt loop, --form per requested form)
+                import copy
+                c2 = copy.deepcopy(case)
+                c2['persona']['over'][q] = text
+                c2['persona']['forms'] = list(req)
+                c2.update(file=list(names), sched=list(sched), prompt=True, refuse_at=None)
+                run = shipped_props.execute_cli(c2)
+            elif how == 'fresh':
+                run = shipped.execute(case['persona'], file_names=names, sched=sched, prompt=True, layout=case.get('layout'),
+                                      overrides={q: text}, requested=req)
+            elif how == 'reuse':
+                # the declaration arrives on the SAME InputStore after a first solve (store reused through its mapping API)
+                first = shipped.execute(case['persona'], file_names=list(basel.supplied), sched=sched, prompt=True)
+                try:
+                    first.store[q] = text
+                except Exception:
+                    continue
+                run = shipped.execute(case['persona'], sched=sched, prompt=True, store=first.store, overrides={q: text})
+            else:
+                run = resolve_history(case['persona'], basel, q, text, sched, rng)
+                if run is None:
+                    continue
+        except (core.RunTimeout, core.BudgetExceeded):
+            # a session that does not finish does not report success either (termination is C06's business)
+            if acc is not None:
+                acc.count('outcome:gate-run-unfinished')
+            continue
         if acc is not None:
             acc.count('fault:gate-declared-' + how)
         consulted = gates_consulted(year, run)
@@ -376,17 +407,56 @@ def eval_limits(case, acc=None):
     return fs
 
 
+def eval_synth_gates(case, acc=None):
+    """generated form programs (several forms, copies of forms, lines asked for by name) in which lines signal an unimplemented
+    situation behind conditions on inputs: whenever the reference model, on the final inputs, reaches such a signal, the real
+    solve must not report success - whichever form or copy the line sits on and whether or not anything waits for it"""
+    from .. import gen  # noqa
+    run = simrun.execute_cli(case, {'prompt': case['prompt'], 'writeback': False, 'solution': False}) if case.get('via_cli') \
+        else simrun.execute(case)
+    r1 = simrun.model_for(case, run)
+    fs = []
+    if r1.verdict != 'abort' and r1.unimpl and run.outcome == 'solved':
+        fs.append(F(ID, 'C09.gate', 'generated-program',
+                    f'generated program: lines {sorted(r1.unimpl)[:4]} signal an unimplemented situation on these inputs, and the '
+                    f'solve reported success'))
+    if acc is not None:
+        acc.steps += run.rec.attempts + run.rec.prompts
+        acc.count(f'outcome:synth-{run.outcome}')
+        if r1.unimpl and r1.verdict != 'abort':
+            acc.count('fault:unsupported-situation-declared')
+            copies = sorted({q.split('.')[0] for q in r1.unimpl if ':' in q.split('.')[0]})
+            if copies:
+                acc.count('probe:unimplemented-line-on-a-form-copy')
+    return fs
+
+
 def evaluate(case, engine, acc=None):
+    if engine == 'synth_gates':
+        return eval_synth_gates(case, acc)
     if engine == 'limits':
         return eval_limits(case, acc)
     return eval_gates(case, acc)
 
 
 def run_one(engine, seed, acc, tier):
+    if engine == 'synth_gates':
+        from .. import gen
+        rng = core.Rng(core.h64('c09s', seed))
+        case = gen.gen_case(seed, force_faults=rng.pick([['notimpl'], ['notimpl'], ['notimpl', 'dup'], ['notimpl', 'none']]))
+        case['prompt'] = True
+        case['refuse_at'] = None
+        case['via_cli'] = (not case['field_names']) and rng.chance(0.3)
+        for f in evaluate(case, engine, acc):
+            acc.violation(base.violation(ID, f, case, seed, engine))
+        return
     if engine == 'limits':
         case = make_limit_case(seed)
     else:
-        case = shipped_props.make_case(seed, 'C09', flip_p=0.0)
+        r_ = core.Rng(core.h64('c09arch', seed))
+        # returns with several copies of a statement are where gates sit on "the other copy": a larger share of them
+        arch = r_.pick(['retiree_1099r', 'retiree_1099r', 'ira_8606', 'joint_hsa_spouse', 'single_w2']) if r_.chance(0.25) else None
+        case = shipped_props.make_case(seed, 'C09', flip_p=0.0, archetype=arch)
         case['prompt'] = True
         case['refuse_at'] = None
     for f in evaluate(case, engine, acc):
